@@ -127,6 +127,57 @@ func jobsFor(prop, tier string) []Job {
 			jb.p["prior"] = pick(2, 3)
 			add("json12", jb.id, jb.w+10, jb.s, jb.p)
 		}
+	case "C17":
+		// the union of all alphabets and nested enumerations above, under the guards:
+		// panic, bytes on fd 1/2, liveness horizon, heap ceiling, fatal-error attribution
+		for _, p := range []string{"C01", "C03", "C04", "C05", "C06", "C08", "C09", "C11", "C12", "C13", "C14", "C15", "C16"} {
+			for _, sj := range jobsFor(p, tier) {
+				sj.ID = "C17.via" + sj.ID
+				sj.Prop = "C17"
+				if sj.Kind == "json12" {
+					sj.P["twobyte"] = 1
+				}
+				jobs = append(jobs, sj)
+			}
+		}
+		add("ctorpanic", "documented-constructor-panics", 1, nil, nil)
+	case "C18":
+		for _, jb := range allContainerJobs(q) {
+			// pass 1 + 3 (plain binary)
+			pp := map[string]int{}
+			for k, v := range jb.p {
+				pp[k] = v
+			}
+			pp["schedmax"] = pick(2, 3)
+			add("pure", "pure."+jb.id, jb.w, jb.s, pp)
+			// pass 2 (-race binary, free-running)
+			rs := map[string]string{"binary": "race"}
+			for k, v := range jb.s {
+				rs[k] = v
+			}
+			rp := map[string]int{"gomaxprocs": 4, "reps": pick(1, 3), "third": pick(0, 1)}
+			for k, v := range jb.p {
+				rp[k] = v
+			}
+			// the pair enumeration is quadratic in the readers: keep the race-pass states small
+			if _, ok := rp["n"]; ok {
+				rp["n"] = pick(3, 4)
+			}
+			if rp["rank"] == 1 {
+				rp["n"] = pick(5, 7)
+			} else if _, ok := rp["u"]; ok && jb.s["c"] != "arraylist" && jb.s["c"] != "singlylinkedlist" && jb.s["c"] != "doublylinkedlist" && rp["u"] > 3 {
+				rp["u"] = pick(3, 4)
+			}
+			add("race", "race."+jb.id, jb.w+20, rs, rp)
+		}
+		// readers that live in other nested enumerations carry C18-tagged oracles too
+		for _, p := range []string{"C08", "C13", "C14", "C16"} {
+			for _, sj := range jobsFor(p, tier) {
+				sj.ID = "C18.via" + sj.ID
+				sj.Prop = "C18"
+				jobs = append(jobs, sj)
+			}
+		}
 	case "C15":
 		for _, jb := range allContainerJobs(q) {
 			jb.p["depth"] = pick(1, 2)
